@@ -1,6 +1,6 @@
 """Property -> rules table. Each rule callable: (prog, tier, repo) -> [RuleResult]."""
 from .rules import traversal_instances as TI
-from .rules import gate, lookup_unwrap, heap, witness, incremental, optimizer, const_arith, shape, backend, printer_rules, comment_linear, enum_evidence, ssa_shared, lex_bounds, gc_rules, scope, eval_order, guard_table, relation, type_walker, str_slice, loc_guard
+from .rules import gate, lookup_unwrap, heap, witness, incremental, optimizer, const_arith, shape, backend, printer_rules, comment_linear, enum_evidence, ssa_shared, lex_bounds, gc_rules, scope, eval_order, guard_table, relation, type_walker, str_slice, loc_guard, sweep_window
 
 PROPERTIES = {}
 
@@ -90,9 +90,10 @@ prop('C09', COMMON +
      'create_comment_reference result, L3 no whole drop of a comment-carrying node) except on paths that report a syntax '
      'error. ID-COMMENT-PAIR: an identifier the printer prints by name only is provably built with the constant empty '
      'comment reference. FRESH-REFERENCE: every non-constant CommentReference is the index of a store entry pushed for it '
-     '(unique ownership; entries are rewritten in place). TRAVERSAL/SIBLING(T-prc): the printer reads every comment-reference slot. Does not decide '
+     '(unique ownership; entries are rewritten in place). LINE-COMMENT-BREAK: a line-comment document is immediately followed '
+     'by the constant hard line break in the sequence it is emitted into. TRAVERSAL/SIBLING(T-prc): the printer reads every comment-reference slot. Does not decide '
      'idempotence of the layout nor that a stored comment is printed in the right place.',
-     [comment_linear.run, comment_linear.run_fresh_reference, printer_rules.run_id_comment_pair, TI.make(['T-prc'])])
+     [comment_linear.run, comment_linear.run_fresh_reference, printer_rules.run_id_comment_pair, printer_rules.run_line_comment_break, TI.make(['T-prc'])])
 
 prop('C11', COMMON +
      'TRAVERSAL/SIBLING(T-gc): the PStr-bearing fields reachable from Module<Arc<Type>> (type walk over the ADT table) '
@@ -129,8 +130,11 @@ prop('C17', COMMON +
      'slots, dominated by the unmarked-module gate, the temporary arm and the not-marked edge; permanent slots are never '
      'overwritten; mark bit set only to true by markers and cleared only by the sweeper), UNINTERN-BEFORE-OVERWRITE, '
      'TABLE-MONOTONE (tables only grow), INTERN-DISCIPLINE (push only after both intern maps missed, paired with an '
-     'insert). Does not decide the interleaving argument (marks cleared incrementally vs. cursor wrap).',
-     [heap.run_tag, heap.run_dealloc, heap.run_unintern, heap.run_monotone, heap.run_intern,
+     'insert); a marker sets the bit for every heap handle whose slot is Temporary (mark-total). SWEEP-WINDOW: zone abstract '
+     'interpretation of the sweeper with variables for the cursor field and the table length: the swept range starts at the '
+     'cursor found on entry and the cursor is left at its end (or 0 at the table end), so consecutive windows tile the table. '
+     'Does not decide the interleaving argument itself (that marking completes between cursor wraps).',
+     [heap.run_tag, heap.run_dealloc, heap.run_unintern, heap.run_monotone, heap.run_intern, sweep_window.run,
       witness.run_for(['WHeap'], 'C17: handles cannot be forged and heap internals cannot be touched outside the crate (compile-fail witnesses)')],
      ['the marker marks every live string before the unmarked-module set becomes empty (C11 side, T-gc)'])
 
